@@ -5,7 +5,8 @@
 (* billing / hourly trees: the approved constant, whether the field is     *)
 (* developer-only, one valid alternative and one invalid value.            *)
 (*  in.kind = "default"   [tree]                                           *)
-(*  in.kind = "construct" [tree, fi, choice, devmode, spelling, form]      *)
+(*  in.kind = "construct" [tree, fi, choice, devmode, silent, spelling,   *)
+(*        form]                                                           *)
 (*        choice in {"def", "alt", "bad"}: the value given for field fi    *)
 (*  in.kind = "cross"     [tree, ci]        a cross-field rule (CrossCases) *)
 (*  in.kind = "stored"    [tree, fi]        build, fit, save: settings kept *)
@@ -17,6 +18,7 @@ EXTENDS Integers, Sequences, FiniteSets, TLC, SettingsTable
 FieldsOf(tree) == {k \in 1..Len(Fields) : Fields[k].tree = tree}
 PinnedDump(tree) == {<<Fields[k].path, Fields[k].def>> : k \in FieldsOf(tree)}
 DumpSet(d) == {<<d[k][1], d[k][2]>> : k \in 1..Len(d)}
+\* only developer_mode opens the lock; silent_developer_mode merely silences the notice and opens nothing by itself
 Locked(in) == Fields[in.fi].dev /\ ~in.devmode
 ExpRes(in) ==
   IF in.choice = "bad" THEN "rejected"
